@@ -397,4 +397,5 @@ func run(c *hlib.Ctx) {
 	runExact(c, n)
 	runBits(c, n)
 	runBall(c, n)
+	runXfBall(c, n)
 }
